@@ -198,3 +198,127 @@ SELFTEST_CASES = [{
     "msgs": [{"kind": "async", "at": 0.0, "dur": 0.3, "out": "ret", "ack": "sync", "timeout": None},
              {"kind": "bad", "at": 0.1, "dur": 0.0, "out": "ret", "ack": None, "timeout": None, "bad": {"v": "null"}}],
 }]
+
+
+# ---------------------------------------------------------------- sync task functions that overlap in a REAL thread pool
+#
+# "exactly once" also for plain `def` task functions, which the worker hands to its executor: 2-4 of them are in the pool at the same
+# time (each blocks on a gate the harness opens once all have started or all deliveries have ended).  Real event loop + real
+# ThreadPoolExecutor; the verdict is the count of function entries per message, no wall-clock threshold.
+
+def pool_overlap_cases() -> Any:
+    return st.fixed_dictionaries({"pool_overlap": st.just(True), "n": st.integers(2, 4), "A": st.sampled_from([None, 4, 8]),
+                                  "threads": st.sampled_from([4, 6]), "via": st.sampled_from(["callback", "listen"])})
+
+
+def run_pool_overlap(c: Dict[str, Any]) -> Outcome:
+    import asyncio
+    import threading
+    from concurrent.futures import ThreadPoolExecutor
+
+    from taskiq import AsyncBroker
+    from taskiq.brokers.inmemory_broker import InmemoryResultBackend
+    from taskiq.kicker import AsyncKicker
+    from taskiq.receiver import Receiver
+
+    out = Outcome()
+    out.clauses_checked = ["C01.a", "C01.b"]
+    n = c["n"]
+    entries: List[int] = []
+    gate = threading.Event()
+    info: Dict[str, Any] = {}
+
+    class QB(AsyncBroker):
+        def __init__(self) -> None:
+            super().__init__()
+            self.q: Any = None
+
+        async def kick(self, m: Any) -> None:
+            return None
+
+        async def listen(self):  # type: ignore[override]
+            while True:
+                yield await self.q.get()
+
+    async def main() -> None:
+        ex = ThreadPoolExecutor(max_workers=c["threads"])
+        try:
+            b = QB()
+            b.q = asyncio.Queue()
+            b.result_backend = InmemoryResultBackend()
+            b.is_worker_process = True
+
+            def stask(k: int) -> int:
+                entries.append(k)
+                gate.wait(20)
+                return k
+
+            stask.__module__ = __name__
+            b.register_task(stask, task_name="pool.overlap")
+            r = Receiver(b, executor=ex, max_async_tasks=c["A"], run_startup=False)
+            datas = [b.formatter.dumps(AsyncKicker("pool.overlap", b, {}).with_task_id(f"id{k}")._prepare_message(k)).message for k in range(n)]
+            finish = asyncio.Event()
+            lt = None
+            if c["via"] == "listen":
+                lt = asyncio.ensure_future(r.listen(finish))
+                for d_ in datas:
+                    b.q.put_nowait(d_)
+                tasks: List[Any] = []
+            else:
+                tasks = [asyncio.ensure_future(r.callback(d_)) for d_ in datas]
+            for _ in range(20000):
+                if len(set(entries)) >= n or (tasks and all(t.done() for t in tasks)):
+                    break
+                if lt is not None and await b.result_backend.is_result_ready(f"id{n - 1}") and all([await b.result_backend.is_result_ready(f"id{k}") for k in range(n)]):
+                    break       # every message has been dealt with one way or the other
+                await asyncio.sleep(0.0005)
+            gate.set()
+            if tasks:
+                await asyncio.gather(*tasks, return_exceptions=True)
+            else:
+                for _ in range(20000):
+                    if all([await b.result_backend.is_result_ready(f"id{k}") for k in range(n)]):
+                        break
+                    await asyncio.sleep(0.0005)
+                finish.set()
+                try:
+                    await asyncio.wait_for(lt, 15)
+                except BaseException:  # noqa: BLE001
+                    info["listen_problem"] = True
+        finally:
+            gate.set()
+            ex.shutdown(wait=True)
+
+    loop = asyncio.new_event_loop()
+    loop.set_exception_handler(lambda l, ctx: None)
+    try:
+        loop.run_until_complete(main())
+        pend = [t for t in asyncio.all_tasks(loop) if not t.done()]
+        for t in pend:
+            t.cancel()
+        if pend:
+            loop.run_until_complete(asyncio.gather(*pend, return_exceptions=True))
+    finally:
+        loop.close()
+    for k in range(n):
+        cnt = entries.count(k)
+        if cnt == 0:
+            out.add("C01.a", f"message {k} of {n} sync-function messages that overlap in the thread pool ({c['threads']} threads, max_async_tasks={c['A']}, via {c['via']}): "
+                             f"its task function never ran (entries per message: {[entries.count(j) for j in range(n)]})")
+        elif cnt > 1:
+            out.add("C01.b", f"message {k}: its sync task function ran {cnt} times")
+    out.nontrivial = True
+    out.classes = ["pool_overlap", f"n={n}", "via=" + c["via"]]
+    return out
+
+
+_parts_core01, _run_core01 = parts, run_case
+
+
+def parts(tier: str) -> List[Part]:  # type: ignore[no-redef]
+    return _parts_core01(tier) + [Part("sync_pool_overlap", "given", shards=2, examples=300 if tier == "thorough" else 20,
+                                       strategy=pool_overlap_cases, soft_deadline_s=900 if tier == "thorough" else 100)]
+
+
+def run_case(sc: Dict[str, Any]) -> Outcome:  # type: ignore[no-redef]
+    return run_pool_overlap(sc) if sc.get("pool_overlap") else _run_core01(sc)
